@@ -138,6 +138,6 @@ def model_cases(mc, rng, limit=6000):
             steps.append(("I%d" if h[0] == "inv" else "C%d") % (h[1] - 1))
         cfg = dict(kind=kind, cap=r["cap"], ts=1, mlf=100, ttl=5 if kind in ("utlru", "utmap", "utset") else 0, tick=2,
                    rnum=1, rsh=1, fl=0, keys=2)
-        post = ["tick 1", "obs", "tick 1", "obs", "tick 3", "obs"] if kind in ("tlru", "utlru", "utmap") else []
+        post = ["tick 4", "obs", "tick 4", "obs", "tick 11", "obs", "tick 1", "obs"] if kind in ("tlru", "utlru", "utmap") else []
         cases.append((dict(cfg=cfg, pre=[], thr=thr, post=post), " ".join(steps)))
     return cases
